@@ -508,6 +508,13 @@ func (c *compiler) findTypedef(y *Type, parent Definition, qualifiedIdent string
 					break
 				}
 			}
+			if sub, isModule := p.(*Module); isModule && sub.belongsTo != nil && p.getOriginalParent() == nil {
+				// a submodule that was included by a submodule: on to what included it
+				if up, loadedByInclude := sub.Parent().(Definition); loadedByInclude {
+					p = up
+					continue
+				}
+			}
 			p = p.getOriginalParent()
 			if p != nil {
 				// issue #50 - submodules can reference types in parent and in any
